@@ -12,7 +12,10 @@ from egverif import zoo
 
 FORWARD, ANY, BACKWARD = 0, 1, 2
 NONNEIGHBOR, NEIGHBOR, ERROR = 0, 1, 2
-DIRS = {"FORWARD": FORWARD, "ANY": ANY, "BACKWARD": BACKWARD}
+# the two bools are other spellings of 0 and 1 (False == DIR_SENS_FORWARD, True == DIR_SENS_ANY): same value, same
+# hash, different type - callers do pass them (the repository's own tests call neighbors(..., True))
+DIRS = {"FORWARD": FORWARD, "ANY": ANY, "BACKWARD": BACKWARD, "FALSE": False, "TRUE": True}
+DIR_NAMES = ("FORWARD", "ANY", "BACKWARD")
 UNKS = {"NONNEIGHBOR": NONNEIGHBOR, "NEIGHBOR": NEIGHBOR, "ERROR": ERROR}
 
 
